@@ -256,9 +256,8 @@ def c06_tree():
 
 
 def load(env):
-    if not env.cache.get("c06_loaded"):
-        env.load_tree(c06_tree())
-        env.cache["c06_loaded"] = True
+    from ..core import load_fixed_tree
+    return load_fixed_tree(env, "c06_loaded", c06_tree, "C06")
 
 
 def run_generated(plan, env, res, tr, fail):
@@ -469,7 +468,12 @@ def run_generated_rx(plan, env, res, tr, fail):
 
 
 def execute(plan, env):
-    load(env)
+    broken = load(env)
+    if broken:
+        res = Result()
+        res.violation = broken
+        res.digest = Trace().digest()
+        return res
     EoWriter = importlib.import_module("eolib.data.eo_writer").EoWriter
     EoReader = importlib.import_module("eolib.data.eo_reader").EoReader
     res = Result()
